@@ -3,7 +3,10 @@ use crate::events::CircuitBreakerEvent;
 #[cfg(feature = "metrics")]
 use metrics::{counter, gauge, histogram};
 use std::collections::VecDeque;
-use std::sync::atomic::{AtomicU8, AtomicUsize, Ordering};
+#[cfg(not(feature = "verif-hooks"))]
+pub(crate) use std::sync::atomic::{AtomicU8, AtomicUsize, Ordering};
+#[cfg(feature = "verif-hooks")]
+pub(crate) use tower_resilience_core::verif::atomic::{AtomicU8, AtomicUsize, Ordering};
 use std::sync::Arc;
 use std::time::{Duration, Instant};
 
